@@ -66,7 +66,9 @@ def rows : List Row := [
   ⟨"F03g", "TypeError", "xpath30/_xpath30_functions.py:evaluate__atan2", ["atan2"], 0⟩,
   ⟨"F03g", "TypeError", "xpath30/xpath30_helpers.py:int_to_alphabetic", ["format-integer"], 0⟩,
   ⟨"F03g", "TypeError", "xpath31/_xpath31_functions.py:evaluate__parse_json_functions", ["json-doc", "parse-json"], 0⟩,
-  ⟨"F03g", "ValueError", "datatypes/qname.py:__init__", ["function-name", "index-of", "distinct-values"], 0⟩,
+  ⟨"F03g", "ValueError", "datatypes/qname.py:__init__", ["function-name", "index-of", "distinct-values", "#"], 0⟩,
+  -- an ElementPathKeyError WITHOUT an error code (unknown type name in element(*, T) / attribute(*, T))
+  ⟨"F03g", "ElementPathKeyError", "sequence_types.py:is_instance", ["element", "attribute"], 0⟩,
   ⟨"F03g", "ValueError", "datatypes/untyped.py:__int__", ["untypedAtomic"], 0⟩,
   ⟨"F03g", "ValueError", "helpers.py:get_double", ["floor", "ceiling", "round", "distinct-values", "index-of", "untypedAtomic", "substring", "subsequence"], 0⟩,
   ⟨"F03g", "ValueError", "datatypes/binary.py:validate", ["index-of", "distinct-values"], 0⟩,
@@ -77,6 +79,7 @@ def rows : List Row := [
   ⟨"F03g", "IndexError", "xpath30/xpath30_helpers.py:format_digits", ["format-integer"], 0⟩,
   ⟨"F03g", "TypeError", "xpath30/xpath30_helpers.py:roman_num", ["format-integer"], 0⟩,
   ⟨"F03g", "ValueError", "namespaces.py:get_expanded_name", ["instance", "castable", "cast", "treat"], 0⟩,
+  ⟨"F03g", "TypeError", "xpath2/_xpath2_functions.py:select__subsequence", ["subsequence"], 0⟩,
   -- F03k: a function item, map or array is passed where an atomic value or a node is expected; the
   -- site is the `evaluate__…` method of whichever function received it
   ⟨"F03k", "TypeError", ":evaluate__*", fnItemSyms, 0⟩,
